@@ -113,7 +113,9 @@ func c05Init() {
 				c05Certs[mx+"/"+kind] = c
 				tcfg = &tls.Config{Certificates: []tls.Certificate{c.tlsCert}}
 			case "failing":
-				tcfg = &tls.Config{GetCertificate: func(*tls.ClientHelloInfo) (*tls.Certificate, error) { return nil, errors.New("scripted handshake failure") }}
+				tcfg = &tls.Config{GetCertificate: func(*tls.ClientHelloInfo) (*tls.Certificate, error) {
+					return nil, errors.New("scripted handshake failure")
+				}}
 			}
 			for _, req := range []bool{true, false} {
 				h, err := verifx.StartNextHop(verifx.HopConfig{Name: mx, ListenIP: fmt.Sprintf("127.0.%d.%d", 10+ev.EnvInt("VERIF_SHARD", 0)%200, i+1), TLS: tcfg, UTF8: true, RequireTLS: req})
@@ -148,17 +150,17 @@ type c05Msg struct {
 
 type c05Scenario struct {
 	// policies
-	MTASTS      string `json:"mtasts"`       // "", none, testing, enforce
-	MTASTSMatch string `json:"mtasts_match"` // which MX the policy lists: all mx1 mx2 other
-	DANE        bool   `json:"dane"`
-	DNSSEC      bool   `json:"dnssec"`
-	MinTLS      string `json:"min_tls_level"` // "", none encrypted authenticated  ("" = no local_policy)
-	MinMX       string `json:"min_mx_level"`  // none mtasts dnssec
-	AllowOverride bool `json:"requiretls_override"`
-	Relaxed     bool   `json:"relaxed_requiretls"`
-	ADMX        bool   `json:"ad_on_mx_lookup"`
-	MXs         []c05MX  `json:"mx"`
-	Msgs        []c05Msg `json:"messages"`
+	MTASTS        string   `json:"mtasts"`       // "", none, testing, enforce
+	MTASTSMatch   string   `json:"mtasts_match"` // which MX the policy lists: all mx1 mx2 other
+	DANE          bool     `json:"dane"`
+	DNSSEC        bool     `json:"dnssec"`
+	MinTLS        string   `json:"min_tls_level"` // "", none encrypted authenticated  ("" = no local_policy)
+	MinMX         string   `json:"min_mx_level"`  // none mtasts dnssec
+	AllowOverride bool     `json:"requiretls_override"`
+	Relaxed       bool     `json:"relaxed_requiretls"`
+	ADMX          bool     `json:"ad_on_mx_lookup"`
+	MXs           []c05MX  `json:"mx"`
+	Msgs          []c05Msg `json:"messages"`
 }
 
 func c05Gen(t *rapid.T) c05Scenario {
